@@ -429,4 +429,8 @@ def run(tier, replay=None):
         for row, llk in zip(gt, lt):
             check_state(row, float(llk), freqs, harr, reads, counts, "mcmc_sampler (trace row)", extra)
     lap("mcmc_sampler")
+    # ------------------------------------------------------------------ per-sample / option plumbing of the programs (shared observer)
+    if tier != "warm":
+        from . import plumbing
+        plumbing.run_plumbing(chk, C.rng(PROP + ":plumbing"), None, PROP, programs=("call",), tier=tier)
     return chk.finish()
